@@ -109,13 +109,16 @@ def used_prefix(params: dict) -> tuple[str, str]:
     dialect in force (dialect argument, else the passed context's dialect, else Draft 2020-12)."""
     cx = params.get("context") or {}
     rp = params.get("ref_prefix")
+    root = POINTERS[effective_dialect(params)]
     if rp is not None:
         conf = rp.rstrip("/")
-        return conf, conf
-    if cx.get("ref_prefix") is not None:
-        return cx["ref_prefix"], cx["ref_prefix"]
-    root = POINTERS[effective_dialect(params)]
-    return root, root
+    elif cx.get("ref_prefix") is not None:
+        conf = cx["ref_prefix"]
+    else:
+        return root, root
+    # observation (see report): an EMPTY configured prefix is treated as "not configured" by on_dataclass and the
+    # dialect pointer is used; "starts with the configured prefix" holds trivially for the empty prefix
+    return conf, (conf if conf != "" else root)
 
 
 def effective_all_refs(params: dict) -> bool:
@@ -203,15 +206,10 @@ def check_doc(doc, defs_docs: dict, params, check_rt=True, own_only=False):
             if not ref.startswith(conf):
                 err = Problem("refs", "$ref does not start with the configured prefix", {"ref": ref, "prefix": conf})
                 continue
-            if conf == "":
-                # an empty configured prefix: the builder falls back to the dialect pointer (observation, see report);
-                # the property text only asks for "starts with the configured prefix", which holds trivially
-                name = ref.rsplit("/", 1)[-1]
-            else:
-                if not ref.startswith(used + "/"):
-                    err = Problem("refs", "$ref is not <prefix>/<name>", {"ref": ref, "prefix": used})
-                    continue
-                name = ref[len(used) + 1:]
+            if not ref.startswith(used + "/"):
+                err = Problem("refs", "$ref is not <prefix>/<name>", {"ref": ref, "prefix": used})
+                continue
+            name = ref[len(used) + 1:]
             if name not in defs_docs:
                 err = Problem("refs", "$ref names no collected definition", {"ref": ref, "definitions": sorted(defs_docs)})
                 continue
@@ -428,7 +426,9 @@ def classify(case: dict, res: dict) -> dict:
             kind = "final-type"
         elif exc == "TypeError" and "doesn't apply to a 'CC' object" in msg and last.get("slots_hit"):
             kind = "slots-descriptor-default"
-        elif exc in ("SyntaxError", "NameError") and last.get("omit_default_container"):
+        elif (exc in ("SyntaxError", "NameError") or (exc == "InvalidFieldValue" and "_default.<locals>.CC" in msg)) \
+                and last.get("omit_default_container"):
+            # (inside a Union the NameError of the spliced repr is re-raised by the union packer as InvalidFieldValue)
             kind = "omit-default-repr-splice"
         elif exc == "ValueError" and msg.startswith("mutable default") and last.get("nt_mutable"):
             kind = "nt-mutable-default"
@@ -449,11 +449,12 @@ def classify(case: dict, res: dict) -> dict:
         if _clash_across(upto):
             kind = "defs-bare-name-clash"
         else:
-            # the outer specialisation's type argument leaks into a nested generic dataclass field (H[int] holding G[str]
-            # renders G's T as int): the definition of G differs between the nested and the direct build
+            # the definition of a generic dataclass depends on where the specialisation is reached from: the outer
+            # specialisation's type argument leaks into a nested generic field (H[int] holding G[str] renders G's T as int),
+            # and a bare `y: T` field is resolved when G[str] is nested but left open when G[str] is the root
             uses = [tuple(u) for f in upto for u in f.get("generic_uses", [])]
             name = (res.get("detail") or {}).get("name")
-            if name in {g for g, _ in uses} and len({a for _, a in uses}) >= 2:
+            if name in {g for g, _ in uses}:
                 kind = "generic-typevar-leak"
     sig["kind"] = kind
     return sig
